@@ -354,6 +354,10 @@ pub fn baseline(seed: u64, opts: &GenOpts) -> (SupplyTrace, Plan) {
         step_name: None,
         rel_link_dir: false,
         read_faults: None,
+        fixed_mtime: false,
+        link_dir_style: 0,
+        work_links: vec![],
+        tz: None,
     };
     (t, Plan { owners, funcs, outsiders, now: now.min(exp) })
 }
@@ -372,6 +376,7 @@ pub enum F {
     OddFileName,
     Fifo,
     SubInspectionFails,
+    DecoyDir,
     ExtraStranger,
     UnknownSchemeFunc,
     UnknownSchemeOwner,
@@ -422,6 +427,7 @@ pub fn fname(f: F) -> &'static str {
         F::OddFileName => "ODD-FILENAME",
         F::Fifo => "FIFO",
         F::SubInspectionFails => "SUB-INSPECTION-FAILS",
+        F::DecoyDir => "DECOY-DIR",
         F::ExtraStranger => "EXTRA-STRANGER",
         F::UnknownSchemeFunc => "UNKNOWN-SCHEME-FUNCTIONARY",
         F::UnknownSchemeOwner => "UNKNOWN-SCHEME-OWNER",
@@ -1165,6 +1171,22 @@ pub fn apply_fault(t: &mut SupplyTrace, plan: &Plan, f: F, r: &mut Rng, prefer_s
             } else {
                 doc.signers.push(x);
                 doc.ops.push(DocOp::SigShuffle(r.next()));
+            }
+        }
+        F::DecoyDir => {
+            // the caller names the link directory through a symbolic link and ".."; the inner links of a
+            // delegated level are delivered below the directory that a purely lexical reading of that
+            // name points to, not below the real one
+            if t.link_dir_style != 2 {
+                return false;
+            }
+            let subs: Vec<usize> = t.root.files.iter().enumerate().filter(|(_, f)| matches!(&f.body, Body::Layout(l) if !l.files.is_empty() && !l.subdir.is_empty() && !l.subdir.starts_with('@'))).map(|(i, _)| i).collect();
+            if subs.is_empty() {
+                return false;
+            }
+            let fi = *r.pick(&subs);
+            if let Body::Layout(inner) = &mut t.root.files[fi].body {
+                inner.subdir = format!("@decoy/{}", inner.subdir);
             }
         }
         F::SubInspectionFails => {
